@@ -397,7 +397,7 @@ func init() {
 			r.Assumptions = []string{"copies made by the Go runtime or inside crypto/dsa are out of reach (SECURITY_ASSUMPTIONS.md says the same)", "draws are classified by length and by the call they were made in; draws that cannot be classified are never reported"}
 			ids := []string{"v3//U3", "v2//U3", "v3/r/U3"}
 			if r.Tier == "thorough" {
-				ids = []string{"v3//U4", "v2//U4", "v3/r/U4", "v2/r/U3", "v3/e/U3", "v3//U5"}
+				ids = []string{"v2/r/U3", "v3/e/U3", "v3//U4", "v2//U4", "v3/r/U4", "v2/r/U4", "v3/e/U4"} // sized to complete within the budget (U5 needs > 1.7 M states for one configuration)
 			}
 			for _, id := range ids {
 				r.explore(verifC08Sys(id, r.Seed))
